@@ -226,3 +226,55 @@ Fixpoint mismatches_from (k : N) (cs : list ccase) : list (N * list N * N) :=
       end
   end.
 Definition mismatches := mismatches_from 0%N.
+
+(* ------------------------------------------------------------------ the other shard-key builders (c11 alt cases) *)
+(* codes: 1 row evaluation, 2 builder result / shard the row was mapped to, 3 bytes hashed / HashID, 5 shards consulted *)
+Record apoint := {
+  ap_row : xrow; ap_time : Z; ap_leaf : list bool; ap_sat : bool;
+  ap_routed : option (N * N); ap_hash : option (str * N)
+}.
+Record acase := {
+  ac_m : mcfg;                           (* the measurement, its key, its database's key; c_groups = the catalogue after the writes *)
+  ac_builder : builder;
+  ac_cond : expr;
+  ac_points : list apoint;
+  ac_targets : list (N * list N);
+  ac_variant : variant                   (* reading of getConditionTags / TargetShards the tree was found to implement *)
+}.
+
+Definition apoint_codes (c : acase) (ap : apoint) : list N :=
+  let m := ac_m c in
+  let p := {| p_tags := x_tags (ap_row ap); p_time := ap_time ap; p_leaf := fun i => nth (N.to_nat i) (ap_leaf ap) false |} in
+  (if Bool.eqb (eval_cond (m_cfg m) (Some (ac_cond c)) p) (ap_sat ap) then [] else [1%N])
+  ++ match find_group (c_groups (m_cfg m)) (ap_time ap) with
+     | None => match ap_routed ap with None => [] | Some _ => [2%N] end
+     | Some g =>
+         let cw := cfg_with m (wkey_in_force m (g_id g)) in
+         (if opt_pair_eqb (match route_in_x xxh64 (ac_builder c) cw g (ap_row ap) with
+                           | Some s => Some (g_id g, s_id s) | None => None end) (ap_routed ap) then [] else [2%N])
+         ++ match ap_hash ap, build_key (ac_builder c) (c_sk cw) (ap_row ap) with
+            | Some (k, h), Some ps => if list_eqb N.eqb (hash_arg cw ps) k && N.eqb (xxh64 k) h then [] else [3%N]
+            | Some _, None => [3%N]
+            | None, _ => []
+            end
+     end.
+
+Definition atargets_ok (c : acase) : bool :=
+  let m := ac_m c in
+  forallb (fun g =>
+             match find (fun x => N.eqb (fst x) (g_id g)) (ac_targets c) with
+             | Some (_, ids) => seteq_b N.eqb (map s_id (target_group xxh64 (ac_variant c) (cfg_at m (g_id g)) g (Some (ac_cond c)))) ids
+             | None => false
+             end) (filter (fun g => negb (g_deleted g)) (c_groups (m_cfg m))).
+
+Fixpoint amismatches_from (k : N) (cs : list acase) : list (N * list N) :=
+  match cs with
+  | [] => []
+  | c :: r =>
+      let codes := flat_map (apoint_codes c) (ac_points c) ++ (if atargets_ok c then [] else [5%N]) in
+      match codes with
+      | [] => amismatches_from (k + 1)%N r
+      | _ => (k, codes) :: amismatches_from (k + 1)%N r
+      end
+  end.
+Definition amismatches := amismatches_from 0%N.
